@@ -241,6 +241,7 @@ def inline_locals(f: FuncInfo, e: ast.expr, depth: int = 5, unpack: bool = False
         setattr(f, cache_name, cache)
     single, binds, loops = cache
     use_line = getattr(e, "lineno", None)
+    own_stmt = {id(b) for b in f.body_nodes() if isinstance(b, ast.Assign) and (b.value is e or any(x is e for x in ast.walk(b.value)))}
 
     def fresh(name: str) -> bool:
         """may the single-assignment temporary `name` be replaced by its expression at the use?"""
@@ -267,6 +268,8 @@ def inline_locals(f: FuncInfo, e: ast.expr, depth: int = 5, unpack: bool = False
                     continue   # bound after the use, and no loop carries it back
                 if isinstance(b, ast.For) and lb < la:
                     continue   # loop variable of a loop that encloses both
+                if isinstance(b, ast.Assign) and id(b) in own_stmt and not any(l.lineno <= lb <= getattr(l, "end_lineno", lb) and not (l.lineno <= la <= getattr(l, "end_lineno", la)) for l in loops):
+                    continue   # bound by the very statement whose right-hand side holds the use: the right-hand side is evaluated first (a loop around it also recomputes the temporary)
                 return False
         return True
 
